@@ -80,6 +80,15 @@ impl Allocator {
             },
     { unimplemented!() }
 
+    /// Some(v) iff the node is an atom in canonical non-negative form whose value fits 26 bits
+    /// (clvmr fits_in_small_atom / SmallAtom nodes)
+    #[verifier::external_body]
+    fn small_number(&self, n: NodePtr) -> (r: Option<u32>)
+        ensures
+            r == (if self.is_atom(n) && is_canonical(self.bytes(n)) && be_val(self.bytes(n)) < 0x400_0000 {
+                Some(be_val(self.bytes(n)) as u32) } else { None::<u32> }),
+    { unimplemented!() }
+
     #[verifier::external_body]
     fn nil(&self) -> (r: NodePtr)
         ensures r == NodePtr::NIL, self.node(r) == NodeView::Atom(Seq::<u8>::empty()),
